@@ -118,9 +118,11 @@ Unusable(r) == CASE Prop = "C16" -> IF r.k \in {"reopen", "rebuild"} THEN {"Unus
 ReportQ(r) == LET base == IF r.k = "queries" THEN r.a ELSE 0 IN
     \A i \in DOMAIN r.q :
         LET v == QueryViol(ToSet(r.st.retr), F[base + i], r.q[i]) IN
-            IF v = {} THEN TRUE ELSE PrintT(<<"BADQ", l, r.h, base + i, r.q[i].r, v>>)
+            IF v = {} THEN TRUE
+            ELSE PrintT(ToJson([tag |-> "BADQ", l |-> l, h |-> r.h, f |-> base + i, res |-> r.q[i].r, v |-> v]))
 
-Report(v, r) == IF v = {} THEN TRUE ELSE PrintT(<<"BAD", l, r.h, r.k, r.a, r.res, v>>)
+Report(v, r) == IF v = {} THEN TRUE
+                ELSE PrintT(ToJson([tag |-> "BAD", l |-> l, h |-> r.h, k |-> r.k, a |-> r.a, res |-> r.res, v |-> v]))
 
 Init == /\ l = 1
         /\ cur = [st |-> [open |-> 0], q |-> <<>>]
